@@ -20,6 +20,8 @@ along with evo.  If not, see <http://www.gnu.org/licenses/>.
 
 import json
 import logging
+import os
+import tempfile
 import typing
 from pathlib import Path
 
@@ -84,8 +86,23 @@ def merge_dicts(first: dict, second: dict, soft: bool = False) -> dict:
 
 
 def write_to_json_file(json_path: Path, dictionary: dict) -> None:
-    with open(json_path, 'w') as json_file:
-        json_file.write(json.dumps(dictionary, indent=4, sort_keys=True))
+    """
+    Writes the dictionary to a complete temporary file first and then moves it
+    atomically to json_path. This way, a crash or a concurrently starting
+    process never sees an empty or partially written file.
+    """
+    json_path = Path(json_path)
+    json_str = json.dumps(dictionary, indent=4, sort_keys=True)
+    fd, tmp_path = tempfile.mkstemp(dir=json_path.parent,
+                                    prefix=json_path.name + ".", suffix=".tmp")
+    try:
+        with os.fdopen(fd, 'w') as json_file:
+            json_file.write(json_str)
+        os.replace(tmp_path, json_path)
+    except BaseException:
+        if os.path.exists(tmp_path):
+            os.remove(tmp_path)
+        raise
 
 
 def reset(destination: Path = DEFAULT_PATH,
@@ -107,8 +124,8 @@ def initialize_if_needed() -> None:
     Initialize evo user folder after first installation
     (or if it was deleted).
     """
-    if not USER_ASSETS_PATH.exists():
-        USER_ASSETS_PATH.mkdir()
+    # Note: another evo process might create the folder at the same time.
+    USER_ASSETS_PATH.mkdir(exist_ok=True)
 
     if not USER_ASSETS_VERSION_PATH.exists():
         open(USER_ASSETS_VERSION_PATH, 'w').write(__version__)
